@@ -227,13 +227,11 @@ func appliedEvents(cau chain.ApplyUpdate, walletAddress types.Address) (events [
 		fce := fced.V2FileContractElement.Move()
 
 		_, missed := fced.Resolution.(*types.V2FileContractExpiration)
-		if fce.V2FileContract.HostOutput.Address == walletAddress {
+		// the payout may go to a different address than the contract's (a
+		// renewal names its final outputs freely): key the event on the
+		// output that was created
+		if sce, ok := siacoinElements[fce.ID.V2HostOutputID()]; ok && sce.SiacoinOutput.Address == walletAddress {
 			outputID := fce.ID.V2HostOutputID()
-			sce, ok := siacoinElements[outputID]
-			if !ok {
-				panic("missing siacoin element")
-			}
-
 			addEvent(types.Hash256(outputID), EventTypeV2ContractResolution, EventV2ContractResolution{
 				Resolution: types.V2FileContractResolution{
 					Parent:     fce.Copy(),
@@ -244,13 +242,8 @@ func appliedEvents(cau chain.ApplyUpdate, walletAddress types.Address) (events [
 			}, sce.MaturityHeight)
 		}
 
-		if fce.V2FileContract.RenterOutput.Address == walletAddress {
+		if sce, ok := siacoinElements[fce.ID.V2RenterOutputID()]; ok && sce.SiacoinOutput.Address == walletAddress {
 			outputID := fce.ID.V2RenterOutputID()
-			sce, ok := siacoinElements[outputID]
-			if !ok {
-				panic("missing siacoin element")
-			}
-
 			addEvent(types.Hash256(outputID), EventTypeV2ContractResolution, EventV2ContractResolution{
 				Resolution: types.V2FileContractResolution{
 					Parent:     fce.Copy(),
